@@ -699,7 +699,9 @@ def hybrj(f, x0, jac, tol=None, verbose=False, maxiter=200, var_bounds=None):
             x = __x
             F1 = F0
             F0 = __f
-            success = D.ar_numpy.linalg.norm(F0) < tol or dxn <= xtol
+            # a step (or, below, a trust region) that has shrunk to nothing is convergence only where the equations are satisfied:
+            # the iteration also stalls at points that are no solution
+            success = D.ar_numpy.linalg.norm(F0) < tol or (dxn <= xtol and D.ar_numpy.linalg.norm(F0) <= 10 * tol * fdim ** 0.5)
         if no_progress:
             J0 = fun_jac(x)
         else:
@@ -710,7 +712,7 @@ def hybrj(f, x0, jac, tol=None, verbose=False, maxiter=200, var_bounds=None):
             trust_region = D.ar_numpy.maximum(trust_region, 3 *  D.ar_numpy.linalg.norm(dx_gn))
         elif D.ar_numpy.max(gain) < 0.25:
             trust_region = trust_region * 0.5
-            success = success or trust_region <= xtol
+            success = success or (trust_region <= xtol and D.ar_numpy.linalg.norm(F0) <= 10 * tol * fdim ** 0.5)
         if success:
             if verbose:
                 Fn0 = D.ar_numpy.linalg.norm(F0)
